@@ -103,7 +103,9 @@ pub fn rand_http(rng: &mut Rng, app_ids: &[String], k: &Knobs, cup: bool) -> Val
             } else { vec![] };
             let auth = if cup && rng.below(100) < k.forged_pct { *rng.pick(&["none", "badsig", "otherkey", "bodytamper", "replay"]) } else { "genuine" };
             let body = if rng.chance(1, 8) {
-                json!({"bad": hex::encode(*rng.pick(&[&b"<html>"[..], b"", b"{\"response\":{}}", b"{\"response\":{\"protocol\":\"3.0\",\"app\":[{\"appid\":1}]}}", b")]}'\n)]}'\n{}", b"\xff\xfe"]))})
+                json!({"bad": hex::encode(*rng.pick(&[&b"<html>"[..], b"", b"{\"response\":{}}", b"{\"response\":{\"protocol\":\"3.0\",\"app\":[{\"appid\":1}]}}", b")]}'\n)]}'\n{}", b"\xff\xfe",
+                                                        // every prefix of the anti-XSSI guard, with and without its line end
+                                                        b")", b")]", b")]}", b")]}'", b")]}'\n", b")]}'\n ", b")]}'{}", b")]}'\r\n{}"]))})
             } else { json!({"doc": rand_doc(rng, app_ids, k)}) };
             json!({"status": status, "retry_after": ra, "auth": auth, "body": body})
         }
